@@ -6,7 +6,7 @@ every accepted rendering; one word at a time is replaced and the rendered parame
 numeric token at position k must be a rendering of START word k and may react to no other word, to no END word and
 to no unrelated nested record; the whole call part must be invariant under END records and unrelated records.
 """
-from vlib import core, ev, domain, histories as H, render
+from vlib import core, ev, domain, histories as H, render, stream
 
 LEVEL = 'exploration'
 RULE = ('for each BSD/Mach-trap decoder of call shape: K sentinel START tuples (enum-valued words range over their '
@@ -62,7 +62,7 @@ def replace_word(rng, name, words, j):
 
 def check_decoder(res, ctx, rng, name):
     case0 = {'name': name}
-    for k_iter in range(ctx.pick(8, 120)):
+    for k_iter in range(ctx.pick(8, 600)):
         start, enums = sentinel_start(rng, name)
         end = [0, domain.distinct_words(rng, 1)[0] >> 8, domain.distinct_words(rng, 1)[0], domain.distinct_words(rng, 1)[0]]
         lookups = MARK[:rng.choice((0, 2, 7))]
@@ -79,6 +79,10 @@ def check_decoder(res, ctx, rng, name):
         if sc is None:
             res.count('decoders_not_of_call_shape')
             return
+        if k_iter < 3:
+            nested0 = [a for j, p in enumerate(lookups) for a in H.lookup(0x40 + j, p)]
+            lk = [f'lookup("{p.decode()}"), vnode id: {0x40 + j}' for j, p in enumerate(lookups)]
+            STREAM_CASES.append((H.syscall(name, start, end, nested0), lk + [text0], f'{name} start={[hex(w) for w in start]}'))
         _, tokens0, rest0 = sc
         res.case((name, tuple(start), tuple(end)))
         res.count('renderings_tokenized')
@@ -181,6 +185,9 @@ def check_decoder(res, ctx, rng, name):
     res.count('decoders_checked')
 
 
+STREAM_CASES = []
+
+
 def run(ctx):
     res = core.Result()
     rng = ctx.rng
@@ -189,6 +196,7 @@ def run(ctx):
     for i, name in enumerate(names):
         if ctx.mine(i):
             check_decoder(res, ctx, rng, name)
+    stream.run_stream(res, 'c09', STREAM_CASES, rng, 'call renderings')
     if ctx.shard == 0:
         s, _ = sentinel_start(core.Ctx('C09', ctx.tier, ctx.seed).rng, 'BSC_pread')
         res.sample({'decoder': 'BSC_pread', 'start_words': [hex(w) for w in s],
@@ -201,6 +209,7 @@ def run(ctx):
     res.require('numeric_tokens_checked', 100)
     res.require('single_word_replacements', 100)
     res.require('decoders_checked', 20)
+    res.require('stream_windows_one_thread', 20)
     return res
 
 
